@@ -644,18 +644,34 @@ impl Connection {
             trace!("Sending DIST_HEADER control: total_len={}", encoded.len());
         }
 
-        let stream = self
-            .transport
-            .write_half_mut()
-            .ok_or_else(|| Error::InvalidStateMessage("no active stream".to_string()))?;
+        let timeout = self.config.timeout;
+        let written: Result<()> = {
+            let stream = self
+                .transport
+                .write_half_mut()
+                .ok_or_else(|| Error::InvalidStateMessage("no active stream".to_string()))?;
 
-        tokio::time::timeout(self.config.timeout, stream.write_all(&buf))
-            .await
-            .map_err(|_| Error::Timeout(self.config.timeout))??;
+            async {
+                tokio::time::timeout(timeout, stream.write_all(&buf))
+                    .await
+                    .map_err(|_| Error::Timeout(timeout))??;
 
-        tokio::time::timeout(self.config.timeout, stream.flush())
+                tokio::time::timeout(timeout, stream.flush())
+                    .await
+                    .map_err(|_| Error::Timeout(timeout))??;
+
+                Ok(())
+            }
             .await
-            .map_err(|_| Error::Timeout(self.config.timeout))??;
+        };
+
+        if let Err(e) = written {
+            // Part of the frame may already be on the wire: anything written after it
+            // would be read by the peer as the rest of this frame.
+            self.transport.close();
+            self.handshake.disconnect();
+            return Err(e);
+        }
 
         trace!("Sent control message: {:?}", control);
 
